@@ -18,7 +18,7 @@ import (
 	"verif/harness/xt"
 )
 
-const c02Rule = "rapid: (flow sso) AuthnRequests naming attacker-controlled URLs in AssertionConsumerServiceURL / Destination / RelayState / extra parameters, another SP's consumer URL, arbitrary AssertionConsumerServiceIndex and ProtocolBinding, valid or failing at one validation step, followed - when accepted - by login completion and the callback (again with attacker parameters); (flow logout) LogoutRequests likewise; (flow callback) callbacks on seeded stored requests whose persisted consumer URL carries query strings and special characters. SP metadata: 1..4 ACS entries (bindings, indexes, isDefault mixes, Locations with query strings, quotes, non-ASCII), 0..2 SLO entries. Oracle per reply: delivery target (form action from an HTML tokenizer / Location before the SAML parameters) equals, after lenient percent-decoding, the Location of one entry registered for the SP named by the request's Issuer whose Binding matches the delivery method (callback: the persisted pair; logout: the first SLO Location), Destination and Recipient inside the decoded message equal that URL exactly, the (acs, binding) arguments of CreateAuthRequest are one registered entry, and no target/Destination/Recipient contains an attacker marker. Non-trivial: the request names a foreign URL/index/binding and the reply has a delivery target. Distinct by (flow, attack channels, failing step, reply kind, metadata shape)."
+const c02Rule = "rapid: (flow sso) AuthnRequests naming attacker-controlled URLs in AssertionConsumerServiceURL / Destination / RelayState / extra parameters, another SP's consumer URL, arbitrary AssertionConsumerServiceIndex and ProtocolBinding, bearing no enveloped signature, the provider's own or one by an unregistered key, valid or failing at one validation step, with a storage whose first persist attempt may fail, followed - when accepted - by login completion and the callback (again with attacker parameters); (flow logout) LogoutRequests likewise; (flow callback) callbacks on seeded stored requests whose persisted consumer URL carries query strings and special characters. SP metadata: 1..4 ACS entries (bindings, indexes, isDefault mixes, Locations with query strings, quotes, non-ASCII), 0..2 SLO entries. Oracle per reply: delivery target (form action from an HTML tokenizer / Location before the SAML parameters) equals, after lenient percent-decoding, the Location of one entry registered for the SP named by the request's Issuer whose Binding matches the delivery method (callback: the persisted pair; logout: the first SLO Location), Destination and Recipient inside the decoded message equal that URL exactly, the (acs, binding) arguments of CreateAuthRequest are one registered entry, and no target/Destination/Recipient contains an attacker marker. Non-trivial: the request names a foreign URL/index/binding and the reply has a delivery target. Distinct by (flow, attack channels, failing step, reply kind, metadata shape)."
 
 const attackerMark = "attacker-7f3a"
 
@@ -39,6 +39,8 @@ type C02Case struct {
 	CBExtra  string             `json:"callback_extra,omitempty"`
 	CBMethod string             `json:"callback_method,omitempty"`
 	Seed     *world.RequestSpec `json:"seed,omitempty"`
+	// PersistFailsOnce: the first attempt to persist the request fails, any further one succeeds
+	PersistFailsOnce bool `json:"persist_fails_once,omitempty"`
 }
 
 var seededACS = []string{
@@ -135,6 +137,17 @@ func genC02Case(t *rapid.T) C02Case {
 			applyModelDefect(&s, d, s.Host)
 		}
 		s.PersistFault = rapid.IntRange(0, 9).Draw(t, "persistfault") == 0
+		c.PersistFailsOnce = !s.PersistFault && rapid.IntRange(0, 7).Draw(t, "persistfailsonce") == 0
+		if rapid.IntRange(0, 2).Draw(t, "bears-signature") == 0 {
+			// the message bears an enveloped signature - the provider's own, or one made with a key nobody registered: signed or
+			// not, verified or not, a URL named inside the message is not a registered endpoint
+			key := "rogue"
+			if ks := spec.SPs[s.SP].KeyNames; len(ks) > 0 && rapid.Bool().Draw(t, "own-key") {
+				key = ks[0]
+			}
+			s.Sign = spsim.Signing{Alg: world.AlgRSASHA256, KeyName: key, KeyInfo: rapid.Bool().Draw(t, "sig-keyinfo"), CertLayout: "plain", DSPrefix: "ds"}
+			c.Channels = append(c.Channels, "enveloped-signature:"+map[bool]string{true: "rogue", false: "own"}[key == "rogue"])
+		}
 		c.CBExtra = extra()
 		c.CBMethod = rapid.SampledFrom([]string{"GET", "POST"}).Draw(t, "cbmethod")
 	case "logout":
@@ -341,6 +354,9 @@ func c02Run(c C02Case) c02Result {
 	}
 	if s.PersistFault {
 		spec.Faults = append(append([]world.Fault(nil), spec.Faults...), world.Fault{Op: "CreateAuthRequest", Kind: "error"})
+	}
+	if c.PersistFailsOnce {
+		spec.Faults = append(append([]world.Fault(nil), spec.Faults...), world.Fault{Op: "CreateAuthRequest", Occurrence: 1, Kind: "error"})
 	}
 	if s.Noise {
 		spec = withNoise(spec)
